@@ -21,7 +21,8 @@ ASSUMPTIONS = [
     "path parts are what pathlib yields for the files root.glob finds (glob/pathlib themselves are outside the claim)",
     "the clause 'for files outside such directories the flag makes no difference to what is generated for them' is "
     "covered only as far as selection goes: the content relation is a two-run relation through mypy (not applicable)",
-    "the selection of mypy ASTs in _get_mypy_asts (string tests on ast.path) is not encoded in this round",
+    "the selection of mypy ASTs in _get_mypy_asts is checked by a CrossHair harness over a pool of 8 paths (incl. a "
+    "module named x__init__.py, a tests directory and a foreign package that mypy followed imports into)",
 ]
 BOUNDS = {"quick": "4 path parts of 1..6 characters", "thorough": "5 path parts of 1..7 characters"}
 MANIFEST = {
@@ -37,6 +38,8 @@ def plan(tier):
     t = 300 if tier == "quick" else 1200
     return [
         K("k_filter", "kjobs.c15", "directory_filter", "test/docs directory filter"),
+        CH("ast_selection", "harness.c15", "ast_selection", [f"0:{a},1:{b}" for a in range(2) for b in range(2)], timeout=t,
+           desc="a mypy AST is analysed iff its file was collected; package inits first", stubs=["mypy build result -> namespace objects"]),
         CH("wiring", "harness.cli", "wiring", [f"0:{s}" for s in range(7)], timeout=t, desc="-tr reaches get_api unchanged",
            stubs=["_run_stub_generator / get_api / generator / file creation -> recorders"], symbolic="option selectors"),
     ]
